@@ -37,6 +37,8 @@ SEEDS = {
     "muxdeep": [["ac", "S1", "R", "A1", ""], ["ac", "A1", "R", "A2", ""], ["ac", "A2", "C", "A3", ""], ["ac", ["A3", "A1"], "M", "MX", ""], ["ac", "MX", "I", "A4", ""]],
     # a mux whose inputs were given by RAIL name (S1 owns rail Q0, A1 owns QA)
     "railmux": [["ac", "Q0", "C", "A1", "QA"], ["as", "S2", ""], ["ac", ["QA", "S2"], "M", "MX", ""], ["ac", "MX", "I", "A3", ""]],
+    # a mux with a per-input resistance list fed by A1 and by A1's own parent: deleting A1 (del_childs=False) merges two inputs
+    "muxlist": [["ac", "S1", "R", "A1", ""], ["ac", ["S1", "A1"], "m", "MX", ""], ["ac", "MX", "I", "A3", ""]],
     "freed": [["ac", "S1", "R", "A1", ""], ["ac", "A1", "I", "A2", ""], ["ac", "S1", "C", "A3", ""], ["dc", "A1", True]],
 }
 
@@ -77,13 +79,16 @@ def apply(s, op):
         raise KeyError(k)
 
 
-def step(s, ghost, op):
+WERROR = {"on": False}   # last op of a transition executed with warnings promoted to errors (python -W error / pytest filterwarnings=error)
+
+
+def step(s, ghost, op, werror=False):
     """apply op, maintain the ghost free list; returns (ghost', exception or None)."""
     before = set(s._g.node_indices())
     exc = None
     try:
         with __import__("warnings").catch_warnings():
-            __import__("warnings").simplefilter("ignore")
+            __import__("warnings").simplefilter("error" if werror else "ignore")
             apply(s, op)
     except Exception as e:
         exc = e
@@ -223,12 +228,14 @@ def ops(s, budget, letters="RCIM", phase_ops=True, gone=(), analysis_op=False):
     if phase_ops:
         add(1, ["sp", [["p", 1.0], ["q", 2.0]]])
         add(1, ["sp", [["p", 5.0], ["q", 2.0], ["r", 1.0]]])
+        add(1, ["sp", [["x", 1.0], ["y", 2.0]]])                    # re-definition with other names: component configurations stay as they are
         add(2, ["sp", [["p", 1.0]]])
         add(2, ["sp", [["N/A", 1.0], ["q", 2.0]]])
         add(2, ["sp", [["p", 4.0], ["N/A", 1.0], ["q", 2.0]]])      # reserved name NOT in first position
         add(2, ["sp", []])
         for c, t in [(1, n) for n in names] + [(2, r) for r in rails] + [(2, "nope")]:
             add(c, ["cp", t, ["p"], "l"])
+            add(c, ["cp", t, ["q", "p"], "l"])                          # a later ["p"] must REPLACE this list, not extend it
             add(c, ["cp", t, [["p", 0.05]], "d"])
             add(c, ["cp", t, [["p", 0.0], ["q", 0.02]], "d"])   # an explicit zero for one phase
             add(c + 1, ["cp", t, 123, "x"])
@@ -489,7 +496,7 @@ def _expand(task):
     for cost, op in ops(s0, B - used, letters, phase_ops, gone, _CTX.get("analysis_op", False))[part::nparts]:
         s, g = replay(seed, hist)
         idb = ids(s)
-        g2, exc = step(s, g, op)
+        g2, exc = step(s, g, op, werror=_CTX.get("werror", False))
         key = kfull(s, g2)
         viol = []
         if trans_check is not None:
@@ -503,9 +510,10 @@ def _check_state(task):
     return (seed, hist, _CTX["state_check"](seed, hist))
 
 
-def explore(run, seeds, D, B, letters="RCIM", trans_check=None, state_check=None, phase_ops=True, max_states=None, note_family="edits", analysis_op=False):
-    """Breadth-first search; returns dict of statistics.  Violating states / transitions are recorded on `run` and not expanded."""
-    _CTX.update(B=B, letters=letters, trans_check=trans_check, state_check=state_check, phase_ops=phase_ops, analysis_op=analysis_op)
+def explore(run, seeds, D, B, letters="RCIM", trans_check=None, state_check=None, phase_ops=True, max_states=None, note_family="edits", analysis_op=False, werror=False):
+    """Breadth-first search; returns dict of statistics.  Violating states / transitions are recorded on `run` and not expanded.
+    werror: the LAST call of every transition runs with warnings promoted to errors (a warning then rejects the call); prefixes run normally."""
+    _CTX.update(B=B, letters=letters, trans_check=trans_check, state_check=state_check, phase_ops=phase_ops, analysis_op=analysis_op, werror=werror)
     ctx = mp.get_context("fork")
     pool = ctx.Pool(NPROC) if NPROC > 1 else None
     mapper = (lambda f, xs: pool.imap_unordered(f, xs, chunksize=4)) if pool else (lambda f, xs: map(f, xs))
@@ -534,8 +542,8 @@ def explore(run, seeds, D, B, letters="RCIM", trans_check=None, state_check=None
                         stats["rejected"] += 1
                         stats["rejected:%s:%s" % (op[0], exn)] += 1
                     for sig, det in viol:
-                        run.note(sig, dict(seed=sd, hist=hist + [op]), det, note_family)
-                    if viol or (rejected and same):
+                        run.note(sig, dict(seed=sd, hist=hist + [op], **({"werror": True} if werror else {})), det, note_family)
+                    if viol or (rejected and same) or (werror and rejected):
                         continue
                     k = (sd, kh)
                     c = used + cost
